@@ -191,3 +191,66 @@ impl AsyncWrite for File {
         Poll::Ready(self.inner.flush())
     }
 }
+
+// ---------------------------------------------------------------------------------------
+// The rest of the `async-fs` surface a change to /repo/src might plausibly start using.
+// Thin wrappers over `std::fs` (a code change that uses them must still compile in
+// simulation); they take no faults.
+
+impl File {
+    pub async fn sync_all(&self) -> io::Result<()> {
+        self.inner.sync_all()
+    }
+    pub async fn sync_data(&self) -> io::Result<()> {
+        self.inner.sync_data()
+    }
+    pub async fn set_len(&self, size: u64) -> io::Result<()> {
+        self.inner.set_len(size)
+    }
+    pub async fn metadata(&self) -> io::Result<std::fs::Metadata> {
+        self.inner.metadata()
+    }
+}
+
+pub async fn remove_file(path: impl AsRef<Path>) -> io::Result<()> {
+    std::fs::remove_file(path)
+}
+pub async fn remove_dir(path: impl AsRef<Path>) -> io::Result<()> {
+    std::fs::remove_dir(path)
+}
+pub async fn remove_dir_all(path: impl AsRef<Path>) -> io::Result<()> {
+    std::fs::remove_dir_all(path)
+}
+pub async fn rename(from: impl AsRef<Path>, to: impl AsRef<Path>) -> io::Result<()> {
+    std::fs::rename(from, to)
+}
+pub async fn copy(from: impl AsRef<Path>, to: impl AsRef<Path>) -> io::Result<u64> {
+    std::fs::copy(from, to)
+}
+pub async fn read(path: impl AsRef<Path>) -> io::Result<Vec<u8>> {
+    std::fs::read(path)
+}
+pub async fn read_to_string(path: impl AsRef<Path>) -> io::Result<String> {
+    std::fs::read_to_string(path)
+}
+pub async fn write(path: impl AsRef<Path>, contents: impl AsRef<[u8]>) -> io::Result<()> {
+    std::fs::write(path, contents)
+}
+pub async fn create_dir(path: impl AsRef<Path>) -> io::Result<()> {
+    std::fs::create_dir(path)
+}
+pub async fn create_dir_all(path: impl AsRef<Path>) -> io::Result<()> {
+    std::fs::create_dir_all(path)
+}
+pub async fn metadata(path: impl AsRef<Path>) -> io::Result<std::fs::Metadata> {
+    std::fs::metadata(path)
+}
+pub async fn symlink_metadata(path: impl AsRef<Path>) -> io::Result<std::fs::Metadata> {
+    std::fs::symlink_metadata(path)
+}
+pub async fn canonicalize(path: impl AsRef<Path>) -> io::Result<std::path::PathBuf> {
+    std::fs::canonicalize(path)
+}
+pub async fn hard_link(from: impl AsRef<Path>, to: impl AsRef<Path>) -> io::Result<()> {
+    std::fs::hard_link(from, to)
+}
